@@ -8,8 +8,9 @@ git -C /repo worktree add --detach $WT HEAD -q || exit 2
 trap 'git -C /repo worktree remove --force '$WT' >/dev/null 2>&1' EXIT
 cd $WT
 git apply "$D/patch.diff" || { echo "patch does not apply"; exit 2; }
+mkdir -p out/1; cp "$D"/*.py out/1/ 2>/dev/null; cp "$D"/*.py out/ 2>/dev/null   # demos may use paths relative to WT/out/n
 /venv/bin/python -m pytest -q -p no:cacheprovider test 2>&1 | tail -n 1
-PYTHONPATH=$WT timeout 300 /venv/bin/python "$D/demo.py" >/dev/null 2>&1; echo "demo exit with patch: $?"
+PYTHONPATH=$WT timeout 300 /venv/bin/python out/1/demo.py >/dev/null 2>&1; echo "demo exit with patch: $?"
 (cd /verif && CANOPEN_REPO=$WT harness/vcheck run $P --tier $T | tail -n 3 | cut -c1-240)
 git checkout -- .
-PYTHONPATH=$WT timeout 300 /venv/bin/python "$D/demo.py" >/dev/null 2>&1; echo "demo exit without patch: $?"
+PYTHONPATH=$WT timeout 300 /venv/bin/python out/1/demo.py >/dev/null 2>&1; echo "demo exit without patch: $?"
